@@ -295,14 +295,14 @@ def path_ops(ck, rnd, quick):
             ck.case(fp=('odd-path', pi_, what), nontrivial=True)
             try:
                 new = f(path)
-                ok = len(new) == len(path) and all(type(a_) is type(b_) for a_, b_ in zip(new, path))
+                ok = len(new) == len(path)          # (a member may legitimately come back as a lower-degree segment tracing the same points at the same parameters)
                 if ok and what in maps:
                     ok = all(abs(a_.point(t) - maps[what](b_.point(t))) <= 1e-9 * 12 for a_, b_ in zip(new, path) for t in (0, 0.3, 1))
             except Exception as e:      # noqa
                 ok, new = False, e
             if not ok:
                 ck.disagree(key='path-op/point-like-or-degree-elevated-members', site='svgpathtools/path.py:scale / rotate / translate / transform',
-                            what='%s of %r = %r' % (what, path, new), case={'path': repr(path), 'op': what}, expected='the same kinds of segments, mapped', observed=repr(new), driver='joints')
+                            what='%s of %r = %r' % (what, path, new), case={'path': repr(path), 'op': what}, expected='the same number of segments, every point mapped', observed=repr(new), driver='joints')
     ck.sample('joint-pattern', {'joined': [True, False, True], 'ops': [o[0] for o in ops]})
 
 
